@@ -158,10 +158,10 @@ var queryProps = []pspec{p("period", aD), p("every", aD), p("align"), p("cron", 
 
 type pg struct {
 	emptyArgs bool // profile: zero-valued arguments ('', 0, 0s) allowed (known renderer limitation)
-	r    *core.Rng
-	vars map[ak][]string // declared variable names by kind
-	decl []string
-	nv   int
+	r         *core.Rng
+	vars      map[ak][]string // declared variable names by kind
+	decl      []string
+	nv        int
 }
 
 var strPool = []string{"'cpu'", "'usage_idle'", "'host'", "'a b'", "'it\\'s'", "'back\\\\slash'", "'q\"q'", "'''triple 'quoted' text'''", "'''multi\nline'''", "'é✓'", "'{{ .ID }} is {{ .Level }}'", "'x,y=z'", "'/tmp/a.log'", "'%'", "'a\\b'", "'tab\there'"}
